@@ -182,6 +182,8 @@ def main():
     insts = (("N", "N"), ("L", "L"), ("N", "L")) if quick else (("N", "N"), ("L", "L"), ("N", "L"), ("L", "N"))
     for fenc, aenc in insts:
         rp.replay(hvsrobj.Instance(6, fenc, aenc), state_hook=hook, step_hook=hook.light)
+    # nearly identical curves (8 + level * 2^-17, exact in binary): the weighted estimators must not lose the scatter
+    rp.replay(hvsrobj.Instance(6, "N", "N", ascale=2.0 ** -17, aoff=8.0), state_hook=hook)
     rp.validate_pending()
     run.notes["replay_NA2"] = rp.stats
 
@@ -195,6 +197,8 @@ def main():
     n_before = hook.n
     for fenc, aenc in (("N", "N"), ("L", "L")):
         rp4.replay(hvsrobj.Instance(6, fenc, aenc), state_hook=hook)
+    # the azimuths are labels: 0 and 180 degrees (the two ends of the admissible interval) are two azimuths like any other pair
+    rp4.replay(hvsrobj.Instance(6, "L", "N", azimuths=[0.0, 180.0]), state_hook=hook)
     rp4.validate_pending()
     run.notes["replay_NA2_NW4"] = rp4.stats
     run.notes["accessor_comparisons_NW4"] = hook.n - n_before
